@@ -250,11 +250,11 @@ Proof.
     + destruct oi; [apply IH | e0].
     + destruct oi; [e0 | apply IH].
 Qed.
-Lemma E0_print_dirs l : E0 (print_dirs cf wm l).
+Lemma E0_print_dirs l : forall v, E0 (print_dirs cf wm l v).
 Proof.
-  induction l as [|d r IH]; cbn [print_dirs]; [e0|].
+  induction l as [|d r IH]; intros v; cbn [print_dirs]; [e0|].
   destruct d; try e0. destruct (lookup_directive name) as [[arglens ?]|]; [|e0]. destruct (negb _); [e0|].
-  e0_bind; [apply E0_eval_list|]. e0_bind; [exact IH | e0].
+  e0_bind; [apply E0_eval_list|]. e0_bind; [e0|]. e0_bind; [e0|]. e0_bind; [apply IH | e0].
 Qed.
 Lemma E0_case_hit sv vs : E0 (case_hit wm sv vs).
 Proof. induction vs as [|x r IH]; cbn [case_hit]; [e0|]. e0_bind; [e0|]. destruct (equals sv x0); [e0 | exact IH]. Qed.
@@ -380,11 +380,11 @@ Qed.
 Lemma E0_print_rest v dirs :
   E0 (match v with
       | VUndef => fail e_undefined
-      | _ => ds <-- print_dirs cf wm dirs ;;; s <-- lift (value_string v) ;;; st <-- get ;;;
+      | _ => ds <-- print_dirs cf wm dirs v ;;; s <-- lift (value_string v) ;;; st <-- get ;;;
              ws <-- lift (print_writes (mode st) ds s) ;;; _ <-- write_all ws ;;; ret VUndef
       end).
 Proof.
-  assert (Hrest : E0 (ds <-- print_dirs cf wm dirs ;;; s <-- lift (value_string v) ;;; st <-- get ;;;
+  assert (Hrest : E0 (ds <-- print_dirs cf wm dirs v ;;; s <-- lift (value_string v) ;;; st <-- get ;;;
                       ws <-- lift (print_writes (mode st) ds s) ;;; _ <-- write_all ws ;;; ret VUndef)).
   { e0_bind; [apply E0_print_dirs|]. e0_bind; [e0|]. apply E0_get. intros s. e0_bind; [e0|]. e0_bind; [e0 | e0]. }
   destruct v; try exact Hrest. e0.
